@@ -127,6 +127,11 @@ def close(a, b, scale):
   return a.shape == b.shape and bool(np.all(np.abs(a - b) <= 2e-4 * (1.0 + scale)))
 
 
+def pmap_devices(backend):
+  """'pmap' = two devices, 'pmap1' / 'pmap2' / ... = that many"""
+  return int(backend[4:] or 2)
+
+
 def digest(s):
   return hashlib.sha1(repr(s).encode()).hexdigest()[:16]
 
@@ -175,7 +180,7 @@ class C10(core.Property):
   RULE = ('histories of 2..4 rounds (quick) over a population of 3..5 clients with 1..4 examples, cohorts of 1..3 '
           'distinct clients per round chosen so that clients participate repeatedly, for each of FedAvg, FedProx, '
           'Mime, MimeLite, AgnosticFedAvg, HypCluster, APFL (key-dependent losses, stateful server optimizer, '
-          'jit/debug backends; pmap in the thorough tier) and histories of 2..3 aggregation rounds for the uniform '
+          'jit/debug backends, pmap with 1 and 2 devices and cohorts larger than the device count) and histories of 2..3 aggregation rounds for the uniform '
           '(plain / arithmetic coding), rotated-uniform, DRIVE and TernGrad aggregators; client ids int / bytes / str / '
           'tuple. Per history, on ONE algorithm (aggregator) object: (1) the plain training loop with every returned '
           'state object fed straight back, all earlier states kept with value snapshots and container identities and '
@@ -275,8 +280,8 @@ class C10(core.Property):
     php = self.cds.PaddedBatchHParams(batch_size=4)
     copt, sopt = self.mk_opt(COPT), self.mk_opt(SOPT)
     be = backend
-    if backend == 'pmap':
-      be = self.fec.ForEachClientPmapBackend(self.jax.local_devices()[:2])
+    if backend.startswith('pmap'):
+      be = self.fec.ForEachClientPmapBackend(self.jax.local_devices()[:pmap_devices(backend)])
     with self.fec.for_each_client_backend(be):
       if name == 'fedavg':
         alg = m['fed_avg'].federated_averaging(self.grad_fn, copt, sopt, hp)
@@ -342,6 +347,10 @@ class C10(core.Property):
         sub['ck'] = min(sub['ck'], 1)
         subs.append(sub)
       yield {'kind': 'xproc', 'hashseeds': [1 + 2 * x, 2 + 2 * x], 'subcases': subs}
+    # pmap backend, cohorts larger than the device count with unequal batch counts, the fault in the last block
+    for x in range({'quick': 1, 'thorough': 4, 'search': 1}[tier]):
+      for n, a in enumerate(ALGS):
+        yield self.gen_pmap_fault(rng, a, 1 + (n + x) % 2)
     for kind, name, h in order:
       if kind == 'alg':
         yield self.gen_alg(rng, name, h, tier)
@@ -374,11 +383,37 @@ class C10(core.Property):
             'codec': CODECS[(h + ALGS.index(name)) % 3],
             'w0': [rng.choice([-1, 0, 1, 2]) for _ in range(D)],
             'idmode': rng.choice(['int', 'bytes', 'bytes', 'str', 'tuple']),
-            'fault_round': rng.randrange(n_rounds), 'fault_pos': rng.randrange(3)}
+            'fault_round': rng.randrange(n_rounds), 'fault_pos': rng.randrange(3),
+            'fault_kind': rng.choice(['unreadable', 'missing_feature'])}
+    if case['backend'].startswith('pmap'):
+      case['backend'] = rng.choice(['pmap1', 'pmap2'])
+      case['fault_kind'] = 'missing_feature'
     if tier == 'thorough' and h % 10 == 0:
       case['fresh'] = True                      # brand-new algorithm objects (not the per-run cached ones)
     if name == 'hypcluster':
       case['clusters'] = [[rng.choice([-2, -1, 0, 1, 2]) for _ in range(D)] for _ in range(rng.choice([2, 3]))]
+    return case
+
+  def gen_pmap_fault(self, rng, name, ndev):
+    case = self.gen_alg(rng, name, 0, 'quick')
+    sizes = [4, 3, 1, 2, 4]                     # 2, 2, 1, 1, 2 batches of size 2 under cfg 0
+    for p, n_ex in zip(case['pop'], sizes):
+      while len(p['y']) < n_ex:
+        p['x'].append([rng.choice([-1, 0, 1, 2]) for _ in range(D)])
+        p['y'].append(rng.choice([-2, -1, 0, 1, 3]))
+        p['dom'].append(len(p['y']) % 2)
+      if name == 'agnostic':
+        n_ex = max(n_ex, 2)
+      p['x'], p['y'], p['dom'] = p['x'][:n_ex], p['y'][:n_ex], p['dom'][:n_ex]
+      if name == 'agnostic':
+        p['dom'][:2] = [0, 1]
+    npop = len(case['pop'])
+    rounds = []
+    for r in range(2):
+      k = min(npop, ndev + rng.choice([1, 2]))
+      rounds.append(rng.sample(range(npop), k))
+    case.update(cfg=0, backend=f'pmap{ndev}', rounds=rounds, ck=rng.randrange(2), fault_round=rng.randrange(2),
+                fault_kind='missing_feature')
     return case
 
   def gen_agg(self, rng, name, h, tier):
@@ -402,6 +437,8 @@ class C10(core.Property):
     if case['kind'] == 'xproc':
       subs = case['subcases']
       if len(subs) > 1:
+        for sub in subs:       # an in-process failure does not need the second interpreter (cheap candidates first)
+          yield sub
         for i in range(len(subs)):
           yield {**case, 'subcases': [subs[i]]}
       else:
@@ -491,7 +528,7 @@ class C10(core.Property):
     name = case['alg']
     T = len(case['rounds'])
     tags = [f'alg={name}', f'backend={case["backend"]}', f'rounds={T}', f'codec={case["codec"]}',
-            f'cfg={case["cfg"]}', f'ids={case.get("idmode", "int")}']
+            f'cfg={case["cfg"]}', f'ids={case.get("idmode", "int")}', f'fault={case.get("fault_kind", "unreadable")}']
     part = [i for co in case['rounds'] for i in co]
     repeated = len(part) != len(set(part))
     tags.append(f'repeated_participation={repeated}')
@@ -508,14 +545,34 @@ class C10(core.Property):
     data_snap = [snap({k: v for k, v in d.all_examples().items()}) for d in datasets]
     rid = lambda i: real_id(case, case['pop'][i]['id'])
 
-    def clients_for(r, broken_at=None):
+    fault_kind = case.get('fault_kind', 'unreadable')
+
+    def clients_for(r, broken_at=None, as_tuple=False):
       cohort = case['rounds'][r]
       keys = jax.random.split(jax.random.PRNGKey(case['key_seed'] + r), max(2, len(cohort)))
       out = []
       for j, i in enumerate(cohort):
-        ds = datasets[i] if j != broken_at else self.Broken(datasets[i].raw_examples)
+        ds = datasets[i]
+        if j == broken_at:
+          if fault_kind == 'missing_feature':
+            # a corrupt shard: the label feature is missing, so the failure happens where the client's batches are
+            # *used* (jit: when the loop reaches the client; pmap: when the device block holding it is dispatched)
+            ds = self.cds.ClientDataset({k: v for k, v in ds.raw_examples.items() if k != 'y'})
+          else:
+            ds = self.Broken(ds.raw_examples)
         out.append((rid(i), ds, keys[j]))
-      return out
+      return tuple(out) if as_tuple else out
+
+    def fault_position(r):
+      """which client of round r is made unreadable.  The pmap backend sorts the cohort by decreasing number of
+      batches (stable) and cuts it into blocks of D clients: there the fault goes into the LAST block, so that earlier
+      blocks have already been dispatched when it is hit."""
+      cohort = case['rounds'][r]
+      if case['backend'].startswith('pmap'):
+        nb = [len(list(datasets[i].shuffle_repeat_batch(self.hparams(case['cfg'])))) for i in cohort]
+        order = sorted(range(len(cohort)), key=lambda j: -nb[j])
+        return order[-1]
+      return case.get('fault_pos', 1) % len(cohort)
 
     def call(alg, state, clients):
       with Watchdog(30):
@@ -599,7 +656,7 @@ class C10(core.Property):
     # ---------------- pass 2: apply every kept round again from its kept state (same object)
     for t in reversed(range(T)):
       try:
-        out2, diag2 = call(A, states[t], clients_for(t))
+        out2, diag2 = call(A, states[t], clients_for(t, as_tuple=True))     # same values, another Sequence type
         o2, d2 = snap(out2), snap(dict(diag2))
       except Exception as e:
         return fail('second-call-raises', f'applying round {t} again from its kept input state raised '
@@ -662,7 +719,7 @@ class C10(core.Property):
     st = states[0]
     for t in range(T):
       if t == fr:
-        fk = case.get('fault_pos', 1) % len(case['rounds'][t])
+        fk = fault_position(t)
         s_before = snap(st)
         raised = None
         try:
@@ -964,6 +1021,24 @@ class C10(core.Property):
       bad = recheck(f'after applying round {t} again from its kept state', current=t)
       if bad:
         return bad
+
+    # ---------------- pass 2b: the container type of the client updates is not part of their value
+    for t in range(T):
+      for cname, wrap in (('list', list), ('tuple', tuple), ('generator', lambda g: g), ('list iterator', lambda g: iter(list(g)))):
+        try:
+          oc = snap(agg.apply(wrap(mk_inputs(t)), states[t]))
+        except Exception as e:
+          return fail('container-raises', f'round {t}: apply with the client updates given as a {cname} raised '
+                      f'{type(e).__name__}: {str(e)[:200]}')
+        ctx.count('agg_applies')
+        if oc != O[t]:
+          return fail('container-dependent', f'round {t}: the same (client updates, state) give a different result when '
+                      f'the updates are passed as a {cname} instead of a list iterator: '
+                      f'{first_diff(O[t], oc, "(aggregate, state)")}')
+        ctx.count('agg_container_types_compared')
+    bad = recheck('after the container-type calls')
+    if bad:
+      return bad
 
     # ---------------- pass 3: restored copies, branch on a second aggregator object
     try:
